@@ -327,6 +327,8 @@ def read_abacus_output(filename):
                 _match = re.match(_match_pattern, line)
                 while not _match:
                     line = file.readline()
+                    if not line:  # end of file before any force line
+                        break
                     _match = re.match(_match_pattern, line)
                 iatom = 0
                 while _match:
@@ -339,6 +341,9 @@ def read_abacus_output(filename):
                     else:
                         line = file.readline()
                         _match = re.match(_match_pattern, line)
+                # Incomplete force block: return only what was read so that
+                # check_forces reports the mismatch of number of atoms.
+                force = force[:iatom]
 
     if force is None:
         raise ValueError("Force data not found.")
